@@ -355,3 +355,6 @@ Theorem links_us_by_state :
   /\ page_links_ok (set_lk_us faithful_cfg true) [w_site_us] w_site_us = true
   /\ page_links_ok faithful_cfg [w_site_us] w_site_us = lk_us faithful_cfg.
 Proof. repeat split; vm_compute; reflexivity. Qed.
+
+Theorem us_scheme_now : lk_us faithful_cfg = true.
+Proof. vm_compute. reflexivity. Qed.
